@@ -349,6 +349,50 @@ theorem sub_RI (f : List ℝ → ℝ) {params B : PList ℝ} {w0 : W ℝ} {slot 
         simp only [names, List.map_cons, List.cons.injEq] at hn
         right; show m ∈ rest.map (·.name); rw [hn.2]; simp
 
+/-- the give-up handlers (`if (p.size() > 1) function_->setParameters(p.createSubList(1))`): unless
+the call throws, the wrapped function is at the base point up to `var` afterwards -/
+theorem giveup_reset (f : List ℝ → ℝ) {params B : PList ℝ} (hc : Ctx params B) {var : Name} {fn : Fn ℝ} {p : PList ℝ}
+    (hri : RI f params B var fn p) :
+    (if decide (p.length > 1) then fn.setParameters f (subIdx p 1) else (fn, none)).1.OK f ∧
+    ((if decide (p.length > 1) then fn.setParameters f (subIdx p 1) else (fn, none)).2 = none →
+      Dev B (if decide (p.length > 1) then fn.setParameters f (subIdx p 1) else (fn, none)).1.params (fun m => m = var)) ∧
+    (if decide (p.length > 1) then fn.setParameters f (subIdx p 1) else (fn, none)).1.kind = fn.kind ∧
+    (if decide (p.length > 1) then fn.setParameters f (subIdx p 1) else (fn, none)).1.en1 = fn.en1 ∧
+    (if decide (p.length > 1) then fn.setParameters f (subIdx p 1) else (fn, none)).1.en2 = fn.en2 := by
+  have hri' := hri
+  obtain ⟨hok, q0, rest, rfl, hq0, hnd, hrest, hlen, hD⟩ := hri
+  cases rest with
+  | nil =>
+    have : decide ((q0 :: ([] : PList ℝ)).length > 1) = false := by simp
+    rw [this]
+    simp only [Bool.false_eq_true, if_false]
+    exact ⟨hok, fun _ => hri'.dev_of_single (by simp), trivial, trivial, trivial⟩
+  | cons ql r =>
+    have hr : r = [] := by
+      cases r with
+      | nil => rfl
+      | cons b r' => simp at hlen
+    subst hr
+    have : decide ((q0 :: [ql]).length > 1) = true := by simp
+    rw [this]
+    simp only [if_true]
+    have hsub : subIdx (q0 :: [ql]) 1 = [ql] := rfl
+    rw [hsub]
+    have hqlp : ql ∈ params := hrest ql (by simp)
+    have hsp := setParameters_dev f hc fn [ql] (by simp [names]) (fun m => m = var) hD hok
+      (by
+        intro b hb hn
+        by_cases e : ql.name = b.name
+        · rw [find?_cons_eq ql [] b.name e]
+          exact (hc.sync ql hqlp b hb e.symm).symm
+        · rw [find?_cons_ne ql [] b.name e]
+          simp only [find?, List.find?_nil]
+          rintro (h | h)
+          · exact hn h
+          · simp [names] at h; exact e h.symm)
+    obtain ⟨h1, _, h3, h4, h5, h6⟩ := hsp
+    exact ⟨h3, h1, h4, h5, h6⟩
+
 /-- one iteration of the five-point loop -/
 theorem step5_LI (f : List ℝ → ℝ) {params B : PList ℝ} (hc : Ctx params B) {w0 : W ℝ} (lp : Loop ℝ)
     (hLI : LI f params B w0 (fun w => w.f3) lp) (i : Nat) (var : Name) :
@@ -373,7 +417,20 @@ theorem step5_LI (f : List ℝ → ℝ) {params B : PList ℝ} (hc : Ctx params 
         generalize probes5 f lp.w.fn p value ((one + Scalar.abs value) * lp.w.h) lp.w.f3 = r5 at hr h5
         rcases r5 with ⟨fn5, p5, o5⟩
         cases o5 with
-        | none => simp only [] at hr; subst hr; simp at hnone
+        | none =>
+          simp only [] at hr h5
+          obtain ⟨hri5, hk, he1, he2, _⟩ := h5
+          obtain ⟨g1, g2, g3, g4, g5⟩ := giveup_reset f hc hri5
+          generalize (if decide (p5.length > 1) then fn5.setParameters f (subIdx p5 1) else (fn5, none)) = rr at hr g1 g2 g3 g4 g5
+          rcases rr with ⟨fnr, er⟩
+          cases er with
+          | some e => simp only [] at hr; subst hr; simp at hnone
+          | none =>
+            simp only [] at hr g1 g2 g3 g4 g5
+            subst hr
+            exact LI.of_dev _ g1 (g2 trivial) hhas'
+              ⟨hfr.scheme, hfr.h, hfr.vars, hfr.c1, hfr.c2, hfr.cx, by simp [g3, hk, hfr.kind], by simp [g4, he1, hfr.en1],
+                by simp [g5, he2, hfr.en2]⟩ hslot
         | some d =>
           rcases d with ⟨d1, d2⟩
           simp only [] at hr h5
@@ -444,6 +501,10 @@ theorem setEval_keep (f : List ℝ → ℝ) {params B : PList ℝ} (hc : Ctx par
       simp only []
       refine ⟨hk.1, hk.2.1, hk.2.2.1, hk.2.2.2.1, hk.2.2.2.2, ?_⟩
       intro q'' v h; injection h with h; injection h with h _; rw [← h]; exact hn'
+
+@[simp] theorem crossFail_snd (f : List ℝ → ℝ) (params : PList ℝ) (cl : CLoop ℝ) (fn : Fn ℝ) :
+    ((crossFail f params cl fn).2 = none) = False := by
+  unfold crossFail; simp
 
 /-- invariant of the cross-derivative loops: the wrapped function is at the base point up to the two
 variables of the previous pair (at the start: the variable probed last by the first loop) -/
